@@ -129,16 +129,21 @@ int main(int argc, char** argv)
         o.prio_minus = false; o.prio_next = true;
         o.depth_quick = 2; o.depth_thorough = 3;
         if (!vx::thorough()) return ps::Configs{{"", o}};
-        for (const char* c : {"N3", "CV", "NL", "NQ", "NY", "I", "SB", "J"}) o.classes.insert(c);
-        o.fees = "zlmh";
-        o.thr = "bcd";
-        o.prio_minus = true;
+        // thorough: (a) the quick menu one level deeper; (b) the full menu (TRUC, version mismatches, time locks, edge of
+        // maturity, sibling eviction, cluster joins, reorg, every fee code / threshold) at depth 2; (c) a pool one tx below
+        // its size limit (the "mempool full" exemption and trimming side effects)
+        ps::Opts deep = o;
+        deep.depth_thorough = 3;
+        ps::Opts rich = o;
+        for (const char* c : {"N3", "CV", "NL", "NQ", "NY", "I", "SB", "J"}) rich.classes.insert(c);
+        rich.fees = "zlmh"; rich.thr = "abcde"; rich.prio_minus = true; rich.max_idx = 2;
+        rich.depth_thorough = 2;
         ps::Opts f = o;
         f.prefill = 13;
         f.base_blocks = 130;
-        f.classes = {"N", "C", "R", "M", "P"};
+        f.classes = {"N", "C", "R", "M", "P", "T"};
         f.fees = "mh";
-        f.depth_thorough = 3;
-        return ps::Configs{{"", o}, {"_full", f}};
+        f.depth_thorough = 2;
+        return ps::Configs{{"_deep", deep}, {"_rich", rich}, {"_full", f}};
     }, mon);
 }
